@@ -284,6 +284,8 @@ def saved_game_same_map(F, S):
 
 def check(F, run, tier):
     S = Summaries(F)
+    from ..rules_archive import noexcept_obligations
+    noexcept_obligations(F, S, run)
     run.declined = DECLINED
     run.explanation = (
         "Static analysis of the map / saved-game reader. Decided: R-TAINT (the file-supplied shift amount is refused at 32 "
